@@ -23,7 +23,13 @@ def watched(fn, seconds=12):
         return ("ok", v)
     except Hang:
         return ("hang",)
+    except MemoryError:
+        return ("hang",)
     except Exception as e:  # error paths are events too
+        if isinstance(e, RuntimeError) and "allocate memory" in str(e):
+            # a rejection loop whose proposals grow without bound runs into the address-space limit of the worker (set in _work)
+            # before it runs into the watchdog: the same event, the call does not come back with a result
+            return ("hang",)
         return ("exc", type(e).__name__, str(e)[:200])
     finally:
         signal.setitimer(signal.ITIMER_PROF, 0)
@@ -49,9 +55,22 @@ def rat(v, maxden=4096):
     return [f.numerator, f.denominator]
 
 
+def _limit_memory(extra_gb=4):
+    """address-space limit of this worker = what it uses now + extra_gb, so that a call whose allocations grow without bound
+    fails inside the call (event 'hang') instead of exhausting the machine"""
+    try:
+        import re, resource
+        vm = int(re.search(r"VmSize:\s+(\d+) kB", open("/proc/self/status").read()).group(1)) * 1024
+        lim = vm + (extra_gb << 30)
+        resource.setrlimit(resource.RLIMIT_AS, (lim, lim))
+    except Exception:
+        pass
+
+
 def _work(run_one, scen, seed, tf):
     import torch, numpy, random
     torch.set_num_threads(1)
+    _limit_memory()
     out = []
     for s in scen:
         sd = (seed * 1000003 + s["tid"]) % (2 ** 31)
